@@ -143,7 +143,8 @@ def run_shards(ctx, prop, seed):
     n = int(os.environ.get('VERIF_SHARDS', '12'))
     procs = []
     for k in range(n):
-        env = dict(os.environ, VERIF_SHARD=str(k), VERIF_SHARDS=str(n), VERIF_SEED=str(seed))
+        env = dict(os.environ, VERIF_SHARD=str(k), VERIF_SHARDS=str(n), VERIF_SEED=str(seed),
+                   PYTHONHASHSEED=str(((seed * 1009 + k) * 7919 + 17) % 4294967291))
         procs.append(subprocess.Popen(
             [sys.executable, os.path.abspath(__file__), prop, '--tier', 'thorough'], env=env,
             stdout=subprocess.DEVNULL, stderr=subprocess.PIPE, text=True))
@@ -180,6 +181,18 @@ def main():
     ap.add_argument('--replay')
     args = ap.parse_args()
     seed = int(os.environ.get('VERIF_SEED', '0') or 0)
+    if 'PYTHONHASHSEED' not in os.environ:
+        # str hashing decides the iteration order of sets of names inside dd: derive it from the
+        # seed so that a run (and the replay of what it finds) is reproducible
+        hs = (seed * 7919 + 17) % 4294967291
+        if args.replay:
+            try:
+                with open(args.replay) as f:
+                    hs = json.load(f).get('hashseed', hs)
+            except Exception:  # noqa: BLE001
+                pass
+        os.environ['PYTHONHASHSEED'] = str(hs)
+        os.execv(sys.executable, [sys.executable] + sys.argv)
     tier = args.tier if args.tier in ('quick', 'thorough') else 'quick'
     reg = registry()
     if args.prop not in reg:
